@@ -127,7 +127,8 @@ def find_loops(m, b0, b1):
             p = m.index('(', w.end())
             q = match_close(m, p, '(', ')')
             do_tail_whiles.add(w.start())
-            loops.append((mo.start(), q + 1))
+            # CBMC 6.11 wants the clauses of a do-while right after the `do` keyword
+            loops.append((mo.start(), mo.end()))
     for mo in KW.finditer(m, b0, b1):
         if mo.group(1) == 'do':
             continue
